@@ -981,6 +981,7 @@ func (ego *list) Max() float64 {
 func (ego *list) ForEachAsync(function func(int, any)) List {
 	var wg sync.WaitGroup
 	step := func(group *sync.WaitGroup, i int, x any) {
+		verifGate("list.ForEachAsync", i)
 		function(i, x)
 		group.Done()
 	}
@@ -998,6 +999,7 @@ func (ego *list) MapAsync(function func(int, any) any) List {
 	wg.Add(ego.Ego().Count())
 	result := NewListOf(nil, ego.Ego().Count())
 	step := func(group *sync.WaitGroup, i int, x any) {
+		verifGate("list.MapAsync", i)
 		mutex.Lock()
 		result.Replace(i, function(i, x))
 		mutex.Unlock()
